@@ -16,6 +16,10 @@ theorem bind_eq_ok {α β} {x : M α} {f : α → M β} {b : β} :
 @[simp] theorem pure_eq_ok {α} (a : α) : (pure a : M α) = .ok a := rfl
 @[simp] theorem panic_ne_ok {α} (n : Nat) (a : α) : (panic n : M α) ≠ .ok a := by simp [panic]
 
+@[simp] theorem ite_ok {α} (c : Prop) [Decidable c] (a b : α) :
+    (if c then (Except.ok a : M α) else Except.ok b) = Except.ok (if c then a else b) := by
+  split <;> rfl
+
 theorem map_eq_ok {α β} {x : M α} {f : α → β} {b : β} :
     (f <$> x) = .ok b ↔ ∃ a, x = .ok a ∧ f a = b := by
   cases x with
@@ -38,4 +42,11 @@ theorem getM_eq_ok {α} {site : Nat} {l : List α} {i : Nat} {x : α} :
     getM site l i = .ok l[i] := by
   simp [getM, h]
 
+end Vt
+
+namespace Vt
+/-- `Except` has no `DecidableEq`; concrete runs are checked through this projection -/
+def isOkTrue : M Bool → Bool
+  | .ok b => b
+  | .error _ => false
 end Vt
